@@ -8,6 +8,7 @@ pub mod c15;
 pub mod c16;
 pub mod c17;
 pub mod cmd;
+pub mod coldstart;
 pub mod oligo_exec;
 pub mod c06;
 pub mod c07;
